@@ -257,7 +257,7 @@ PROPS["C16"] = dict(
     bounds="units Second/Minute/Hour/Day; zones UTC, Asia/Kolkata, America/New_York 2024, Europe/Berlin 2024, "
            "Australia/Lord_Howe 2024, America/Sao_Paulo 2018, America/Havana 2024 (real transition instants); every second of "
            "the table year as the current instant; multiplier 1..3 as a solver variable and 5, 7, 13, 24, 60, 100 as instances; "
-           "modulate on/off per instance; trigger(): 3 arrivals at symbolic non-decreasing instants",
+           "modulate on/off per instance; trigger(): 1-2 arrivals at symbolic later instants",
     outside="Week/Month/Year units (calendar arithmetic beyond day-of-year; Month/Year results leave the table year), "
             "max_random_delay > 0 (thread-local RNG), sub-second instants, other zones and years, n = 0 and absurd multipliers",
     assumptions=[
@@ -287,7 +287,8 @@ PROPS["C16"] = dict(
         _TN("next_havana_day", "America/Havana 2024 (switch at local midnight), Day, plain, n in 1..3"),
         _TN("known_ny_hour_ambiguous", "America/New_York, Hour, +-2 h around the 2024-11-03 overlap (class of the fixed finding)"),
         _TN("known_havana_day_gap", "America/Havana, Day, +-25 h around the 2024-03-10 midnight gap (class of the fixed finding)"),
-        _TN("trigger_utc_minute", "UTC, Minute: new() + 3 trigger() calls", bound="unwind 5"),
+        _TN("trigger_utc_minute", "UTC, Minute: new() + 1 trigger() call at a later instant", bound="unwind 5"),
+        _TN("trigger_utc_minute_2", "UTC, Minute: new() + 2 trigger() calls", tier="thorough", bound="unwind 5", timeout=3600, mem_gb=14),
         _TN("next_kolkata_day", "Asia/Kolkata, Day, plain", tier="thorough"),
         _TN("next_ny_day_mod", "America/New_York, Day, modulate", tier="thorough"),
         _TN("next_berlin_second_mod", "Europe/Berlin, Second, modulate", tier="thorough"),
@@ -299,7 +300,7 @@ PROPS["C16"] = dict(
         _TN("next_berlin_hour_n24", "Europe/Berlin, Hour, plain, n = 24", tier="thorough"),
         _TN("next_kolkata_minute_n60", "Asia/Kolkata, Minute, plain, n = 60", tier="thorough"),
         _TN("next_ny_day_mod_n100", "America/New_York, Day, modulate, n = 100", tier="thorough"),
-        _TN("trigger_ny_hour_mod", "America/New_York, Hour, modulate: new() + 3 trigger() calls", tier="thorough", bound="unwind 5"),
+        _TN("trigger_ny_hour_mod", "America/New_York, Hour, modulate: new() + 2 trigger() calls", tier="thorough", bound="unwind 5", timeout=3600, mem_gb=14),
     ],
 )
 
@@ -349,3 +350,289 @@ PROPS["C20"] = dict(
         _LS("interval_junk_x", "junk 'x'", tier="thorough"),
     ],
 )
+
+# ------------------------------------------------------------------------------------------
+# appenders over the model disk
+HARNESS_LOOPS = [(r"^(c04_file|c05_rolling|c08_faults|world::fs|wfile)::", "*", 26)]
+_fs_assumptions = [
+    "E4 model file system and file handles (harness/src/world.rs, wfile.rs) replace OpenOptions::{append,truncate,open}, "
+    "File::metadata, Metadata::len, <File as Write>::{write,flush}, the closing of descriptors, fs::{rename,create_dir_all}: a handle "
+    "refers to an inode, so a writer that survives a rename keeps writing into the renamed file; writes are complete (no short writes)",
+    "E3: parking_lot::Mutex is replaced by a std Mutex wrapper (mutual exclusion trusted); std's BufWriter runs for real",
+    "E9: the fallback PatternEncoder named by the builders is cut (harnesses install their own encoder); Backtrace::capture -> "
+    "disabled; <anyhow::Error as Drop>::drop -> no-op; fault-free harnesses cut <anyhow::Error as From<io::Error>>::from",
+    "harness loops over the 24-byte model files get a per-loop bound of 26 (--unwindset), everything else the harness bound of 6",
+]
+_a = dict(timeout=1800, mem_gb=12, unwindset=HARNESS_LOOPS + BT_LOOPS)
+
+PROPS["C04"] = dict(
+    functions=["FileAppenderBuilder::build", "<FileAppender as Append>::append", "SimpleWriter", "std::io::BufWriter<File> (std, executed for real)"],
+    bounds="1-3 successive appends of records of 0..4 bytes written in one or two chunks, 0..3 pre-existing bytes, both open modes; "
+           "content observed after every single append",
+    outside="real thread parallelism (Kani has no threads; the writer is confined to the mutex, see assumptions), records larger than "
+            "the 1 KiB buffer, short writes of the OS",
+    assumptions=_fs_assumptions,
+    level_text="Bounded model checking of the real file appender over all record lengths, chunkings, pre-existing contents and both "
+               "open modes for histories of up to 3 appends; after every append the model disk's bytes at the path must equal (old "
+               "content if append mode) ++ record_1 .. record_i exactly - so a dropped flush, a swapped append/truncate flag or a flush "
+               "before the encode shows as a byte mismatch.",
+    level_note="Trusted: Kani/CBMC/CaDiCaL and the environment models E3/E4. Interleavings are not explored (see outside).",
+    design_ref="DESIGN.md section 5, C04",
+    harnesses=[
+        H("c04_file::file_1rec", instance="1 append", symbolic="pre-existing length 0..2 and existence, open mode, record length 0..4, chunking", bound="unwind 10", **_a),
+        H("c04_file::file_1rec_witness", kind="witness", **_a),
+        H("c04_file::file_2rec", instance="2 appends", symbolic="as above per record", bound="unwind 10", **_a),
+        H("c04_file::file_3rec", tier="thorough", instance="3 appends, up to 3 pre-existing bytes", symbolic="as above", bound="unwind 10", timeout=3600, mem_gb=14, unwindset=HARNESS_LOOPS + BT_LOOPS),
+    ],
+)
+
+_r_sym = "pre-existing length 0..2, open mode, record lengths 0..3, roll decision at every policy consultation (or trigger parameter), restart"
+PROPS["C05"] = dict(
+    functions=["RollingFileAppenderBuilder::build", "<RollingFileAppender as Append>::append", "RollingFileAppender::get_writer",
+               "LogWriter::{write,flush}", "LogFile::{roll,len_estimate}", "std::io::BufWriter<File> (std, executed for real)",
+               "CompoundPolicy::process (unit harness c06_triggers::compound_policy)"],
+    bounds="histories of 1-3 appends (records 0..3 bytes), optional restart after the first append, pre- and post-processing "
+           "policies, every roll decision a solver variable; one archive name (the roller is abstract here: rename to the archive; "
+           "the real rollers are decided in C07)",
+    outside="compression, background rotation, real thread parallelism, records larger than the 1 KiB buffer; composition with the "
+            "real roller in one harness",
+    assumptions=_fs_assumptions + ["the harness Policy performs the roll by renaming the active file to the archive name after calling "
+                                   "the real LogFile::roll (the documented Roll contract)"],
+    level_text="Bounded model checking of the real rolling appender against a stream model: after every append the active file and "
+               "the archive must hold exactly the bytes the record stream prescribes (whole records, in write order, none twice, none "
+               "missing) for every combination of roll decisions, record sizes, open mode and a restart.",
+    level_note="Trusted: Kani/CBMC/CaDiCaL, E3/E4. Assume-guarantee split at the Roll trait: appender here, rollers in C07.",
+    design_ref="DESIGN.md section 5, C05",
+    harnesses=[
+        H("c05_rolling::roll_plan_post_1", instance="post-processing policy, 1 append", symbolic=_r_sym, bound="unwind 10", **_a),
+        H("c05_rolling::roll_plan_post_1_witness", kind="witness", **_a),
+        H("c05_rolling::roll_plan_pre_1", instance="pre-processing policy, 1 append", symbolic=_r_sym, bound="unwind 10", **_a),
+        H("c05_rolling::roll_plan_post_2", instance="post-processing policy, 2 appends", symbolic=_r_sym, bound="unwind 10", **_a),
+        H("c05_rolling::roll_plan_pre_2", tier="thorough", instance="pre-processing policy, 2 appends", symbolic=_r_sym, bound="unwind 10", timeout=3600, mem_gb=14, unwindset=HARNESS_LOOPS + BT_LOOPS),
+        H("c05_rolling::roll_plan_post_3_restart", tier="thorough", instance="post-processing, 3 appends, optional restart", symbolic=_r_sym, bound="unwind 10", timeout=3600, mem_gb=14, unwindset=HARNESS_LOOPS + BT_LOOPS),
+        H("c06_triggers::compound_policy", instance="CompoundPolicy::process with harness trigger/roller", symbolic="trigger answer (no/yes/error), roller failure, pre flag", bound="unwind 6", timeout=900, mem_gb=8),
+    ],
+)
+
+PROPS["C06"] = dict(
+    functions=["SizeTrigger::trigger", "<RollingFileAppender as Append>::append", "LogWriter::write (len accounting)", "RollingFileAppender::get_writer (initial len)",
+               "LogFile::len_estimate"],
+    bounds="trigger unit: all limits and sizes in u64; appender: limit 0..6, pre-existing size 0..2, 2-3 records of 0..3 bytes, both open "
+           "modes, one restart",
+    outside="multi-byte text (record bytes are opaque here), records larger than the 1 KiB buffer, len near u64::MAX in the appender",
+    assumptions=_fs_assumptions,
+    level_text="Bounded model checking: (unit) the size trigger answers 'roll' exactly when the size exceeds the limit, over all of "
+               "u64 x u64; (appender) a harness policy compares LogFile::len_estimate() with the true size of the active file at every "
+               "consultation and decides with the real SizeTrigger; rotation must happen exactly after the appends that leave the file "
+               "larger than the limit and the active file never stays above the limit.",
+    level_note="Trusted: Kani/CBMC/CaDiCaL, E3/E4.",
+    design_ref="DESIGN.md section 5, C06",
+    harnesses=[
+        H("c06_triggers::size_trigger", instance="SizeTrigger unit", symbolic="limit, size: all of u64", bound="unwind 4", timeout=600, mem_gb=6),
+        H("c06_triggers::size_trigger_witness", kind="witness", timeout=600, mem_gb=6),
+        H("c05_rolling::roll_size_2", instance="appender + real SizeTrigger, 2 appends", symbolic="limit 0..6, pre-existing 0..2, open mode, record lengths", bound="unwind 10", **_a),
+        H("c05_rolling::roll_size_3_restart", tier="thorough", instance="appender + real SizeTrigger, 3 appends, optional restart", symbolic="as above", bound="unwind 10", timeout=3600, mem_gb=14, unwindset=HARNESS_LOOPS + BT_LOOPS),
+    ],
+)
+
+PROPS["C17"] = dict(
+    functions=["OnStartUpTrigger::{new,trigger}", "<RollingFileAppender as Append>::append (pre-processing path)"],
+    bounds="trigger unit: min_size and three observed sizes over all of u64; appender: min_size 0..3, pre-existing 0..2 bytes, 2 appends",
+    outside="simultaneous first appends from several threads (the Once and the appender mutex are trusted)",
+    assumptions=_fs_assumptions,
+    level_text="Bounded model checking: the start-up trigger returns true at most once, only on its first consultation and exactly "
+               "when the size seen then is at least min_size; in the appender the pre-existing bytes end up in the archive and the "
+               "first new record starts a fresh file (stream model of C05).",
+    level_note="Trusted: Kani/CBMC/CaDiCaL, std::sync::Once, E3/E4.",
+    design_ref="DESIGN.md section 5, C17",
+    harnesses=[
+        H("c06_triggers::onstartup_trigger", instance="OnStartUpTrigger unit, 3 calls", symbolic="min_size, three sizes: all of u64", bound="unwind 4", timeout=600, mem_gb=6),
+        H("c06_triggers::onstartup_trigger_witness", kind="witness", timeout=600, mem_gb=6),
+        H("c05_rolling::roll_startup_2", instance="appender + real OnStartUpTrigger, 2 appends", symbolic="min_size 0..3, pre-existing 0..2, record lengths", bound="unwind 10", **_a),
+    ],
+)
+
+# ------------------------------------------------------------------------------------------
+# the width writers call each other through `&mut dyn encode::Write`; per-function recursion bounds keep
+# the fan-out at the nesting depth of the instance (+1); their unwinding assertions stay on
+WRITE_REC = [(r"as std::io::Write>::(flush|write|write_all|write_fmt)$", None, 3),
+             (r"as log4rs::encode::Write>::set_style$", None, 3),
+             (r"^log4rs::encode::pattern::Chunk::encode$", None, 4),
+             (r"^log4rs::encode::pattern::FormattedChunk::encode$", None, 4)]
+SINK_LOOPS = [(r"^<(c12_json::BigSink|c10_width::Sink|c09_pattern::Rec) as std::io::Write>::write", "*", 64),
+              (r"^c12_json::Out::", "*", 64), (r"^(c12_json|c09_pattern|c10_width|c11_safe)::body", "*", 300)]
+_p = dict(timeout=1800, mem_gb=12, unwindset=WRITE_REC + SINK_LOOPS)
+_pat_assumptions = [
+    "E7: thread name / system thread id are constants under the guard (std's thread::current() and the TID thread-local cannot be "
+    "compiled by Kani); thread_id::get, process::id, log_mdc::get, Local::now / Utc::now and the Local zone are stubbed (fixed values)",
+    "the sink is a harness encode::Write that records bytes (and style calls) and never fails",
+]
+PROPS["C10"] = dict(
+    functions=["Chunk::encode (Formatted)", "MaxWidthWriter::write", "LeftAlignWriter::{write,finish}", "RightAlignWriter::{write,finish}",
+               "is_char_boundary", "char_starts", "FormattedChunk::encode (Align)"],
+    bounds="text of 0..3 scalars of 1-3 bytes each (4 bytes in one instance) split into 1-3 literal pieces at scalar boundaries; "
+           "m, M in 0..4 with m <= M; which of m / M is present, alignment and fill ('~', ' ', 'é', '€', '{') are instances; short "
+           "writes of the sink (pieces ending inside a scalar) in two instances",
+    outside="nested width specs, combining marks (counted as scalars), m > M, widths above 4; Parser::parameters (see C11)",
+    assumptions=_pat_assumptions + ["hook verif_encode_padded builds the Chunk tree {(<pieces>):<spec>} directly and runs the real Chunk::encode"],
+    level_text="Bounded model checking of the real width/alignment writers: for every text, split, m and M within the bounds the bytes "
+               "written equal 'first M scalars, padded with the fill to m scalars on the chosen side' byte for byte, hence valid UTF-8 "
+               "and at most M characters.",
+    level_note="Trusted: Kani/CBMC/CaDiCaL. Writer composition (which bounds exist, alignment, fill) is enumerated.",
+    design_ref="DESIGN.md section 5, C10",
+    harnesses=[
+        H("c10_width::w_left_min", instance="left, min only, fill ' '", symbolic="text, split, m", bound="unwind 8", **_p),
+        H("c10_width::w_left_min_witness", kind="witness", **_p),
+        H("c10_width::w_right_min", instance="right, min only, fill '~'", symbolic="text, split, m", bound="unwind 8", **_p),
+        H("c10_width::w_max", instance="max only", symbolic="text, split, M", bound="unwind 8", **_p),
+        H("c10_width::w_left_both", instance="left, min+max, fill 'é'", symbolic="text, split, m <= M", bound="unwind 8", **_p),
+        H("c10_width::w_right_both", instance="right, min+max, fill '€'", symbolic="text, split, m <= M", bound="unwind 8", **_p),
+        H("c10_width::w_right_both_brace", tier="thorough", instance="right, min+max, fill '{', 3 pieces", symbolic="text, splits, m <= M", bound="unwind 8", timeout=3600, mem_gb=14, unwindset=WRITE_REC + SINK_LOOPS),
+        H("c10_width::w_max_short", tier="thorough", instance="max only, sink accepts a solver-chosen prefix per write", symbolic="text, M, short-write lengths", bound="unwind 8", timeout=3600, mem_gb=14, unwindset=WRITE_REC + SINK_LOOPS),
+        H("c10_width::w_left_both_short", tier="thorough", instance="left, min+max, short writes", symbolic="text, m <= M, short-write lengths", bound="unwind 8", timeout=3600, mem_gb=14, unwindset=WRITE_REC + SINK_LOOPS),
+        H("c10_width::w_left_both_4byte", tier="thorough", instance="left, min+max, 4-byte scalars allowed, 3 pieces", symbolic="text, splits, m <= M", bound="unwind 10", timeout=3600, mem_gb=14),
+    ],
+)
+
+PROPS["C11"] = dict(
+    functions=["Parser::{next,argument,formatter,name,args,arg,parameters,integer,text}", "From<Piece> for Chunk", "PatternEncoder::{new,encode}", "Chunk::encode"],
+    bounds="pattern skeletons as instances with one free character: 20- and 22-digit widths with a free last digit, a small width "
+           "with a free digit (encoded), an unknown formatter and an unclosed brace after a literal prefix, 'a{m}b' with the third "
+           "character free over { } ( ) \\ : . < > m 9 and blank",
+    outside="free pattern text beyond one character, date format directives, time zones, records other than the fixed one",
+    assumptions=_pat_assumptions,
+    level_text="Bounded model checking of the real parser and encoder on pattern skeletons: no reachable panic or arithmetic overflow "
+               "(every such check is an obligation), encode returns, ill-formed patterns show the {ERROR: marker after the rendering of "
+               "the well-formed prefix.",
+    level_note="Trusted: Kani/CBMC/CaDiCaL. Kani models the dev profile (overflow checks on).",
+    design_ref="DESIGN.md section 5, C11",
+    harnesses=[
+        H("c11_safe::width_20_digits", instance="{m:1844674407370955161<d>}", symbolic="last digit", bound="unwind 26", **_p),
+        H("c11_safe::width_20_digits_witness", kind="witness", **_p),
+        H("c11_safe::maxwidth_22_digits", instance="{m:.999999999999999999999<d>}", symbolic="last digit", bound="unwind 28", **_p),
+        H("c11_safe::width_small_encode", instance="ab{m:><d>.3}, encoded", symbolic="the width digit", bound="unwind 12", **_p),
+        H("c11_safe::unknown_formatter", instance="ab{x}cd, encoded", symbolic="-", bound="unwind 12", **_p),
+        H("c11_safe::unclosed", instance="ab{m, encoded", symbolic="-", bound="unwind 12", **_p),
+        H("c11_safe::one_free_syntax_char", tier="thorough", instance="a<c>m}b, encoded", symbolic="c over 12 syntax characters", bound="unwind 12", timeout=3600, mem_gb=14),
+    ],
+)
+
+PROPS["C09"] = dict(
+    functions=["Parser (all)", "From<Piece> for Chunk", "PatternEncoder::{new,encode}", "Chunk::encode", "FormattedChunk::encode"],
+    bounds="10 well-formed patterns (instances) covering every formatter and alias, doubled and backslash escapes, nesting depth 2, MDC "
+           "with and without default, highlight nesting, debug/release groups, two date formats; solver variables: level, message of 0..2 "
+           "units and target of 1 unit over {a, '{', '\\', é}, presence of module / file / line / MDC key",
+    outside="other patterns, longer texts, the release-profile half of {D}/{R} (Kani models the dev profile; the native twin runs both), "
+            "real clock / thread identity (fixed stand-ins)",
+    assumptions=_pat_assumptions,
+    level_text="Bounded model checking of the real parser + encoder: each pattern is given as text (parsed by the real parser) and as "
+               "an abstract item list (rendered by an independent reference); output bytes and the number of style / reset calls must "
+               "be equal for all records within the bounds.",
+    level_note="Trusted: Kani/CBMC/CaDiCaL. The pattern is an instance parameter, not a solver variable.",
+    design_ref="DESIGN.md section 5, C09",
+    harnesses=[
+        H("c09_pattern::pat_basic", instance="{l} {m} at {M} in {f}:{L}", symbolic="record fields", bound="unwind 12", **_p),
+        H("c09_pattern::pat_basic_witness", kind="witness", **_p),
+        H("c09_pattern::pat_escapes", instance="{{{m}}}(({t}))\\\\", symbolic="record fields", bound="unwind 12", **_p),
+        H("c09_pattern::pat_mdc", instance="{X(k)}|{X(k)(dflt)}", symbolic="record fields, MDC presence", bound="unwind 12", **_p),
+        H("c09_pattern::pat_highlight", instance="{h({l} {h({m})})}!", symbolic="record fields", bound="unwind 12", **_p),
+        H("c09_pattern::pat_aliases", tier="thorough", instance="long aliases", symbolic="record fields", bound="unwind 12", timeout=3600, mem_gb=14),
+        H("c09_pattern::pat_ids", tier="thorough", instance="{I}-{i}-{P}{n}", symbolic="record fields", bound="unwind 12", timeout=3600, mem_gb=14),
+        H("c09_pattern::pat_nested", tier="thorough", instance="{([{({m})}])}{t}", symbolic="record fields", bound="unwind 12", timeout=3600, mem_gb=14),
+        H("c09_pattern::pat_debug_release", tier="thorough", instance="{D(D{m})}{R(R{t})}", symbolic="record fields", bound="unwind 12", timeout=3600, mem_gb=14),
+        H("c09_pattern::pat_date", tier="thorough", instance="{d(%Y)(utc)} {date(%Y-%m-%d)(local)} {m}", symbolic="record fields", bound="unwind 12", timeout=3600, mem_gb=14),
+    ],
+)
+
+PROPS["C12"] = dict(
+    functions=["JsonEncoder::encode_inner", "derived Serialize for Message", "ser_display", "Mdc::serialize", "serde_json compact serializer and chrono RFC 3339 formatting (executed for real)"],
+    bounds="message of 1-2 units and target of 1 unit over {\", \\, LF, 0x01, a, é}; every level; module / file / line present or "
+           "absent; zero or one MDC pair; fixed time stamp",
+    outside="longer strings, other control characters, several MDC entries, real thread identity",
+    assumptions=_pat_assumptions + ["log_mdc::iter is stubbed to yield the harness' pair"],
+    level_text="Bounded model checking of the real JSON encoder against a reference serializer written from RFC 8259: the emitted "
+               "line must equal the reference byte for byte, which implies one line, no raw control character, exact round trip of "
+               "the strings and omission of absent fields.",
+    level_note="Trusted: Kani/CBMC/CaDiCaL.",
+    design_ref="DESIGN.md section 5, C12",
+    harnesses=[
+        H("c12_json::json_1unit", instance="message of 1 unit", symbolic="message, target, level, field presence, MDC presence", bound="unwind 12", **_p),
+        H("c12_json::json_1unit_witness", kind="witness", **_p),
+        H("c12_json::json_2units", tier="thorough", instance="message of 2 units", symbolic="as above", bound="unwind 12", timeout=3600, mem_gb=14),
+    ],
+)
+
+PROPS["C15"] = dict(
+    functions=["<Logger as Log>::{log,enabled}", "Handle::set_config", "SharedLogger::new_with_err_handler", "Logger::max_log_level", "ConfigBuilder::build"],
+    bounds="(a) one logging thread x one reconfiguring thread, one swap, at any of the yield points around the snapshot load / store, or "
+           "re-entrantly from inside an appender of the old configuration; configurations of two appenders and one logger; all levels; "
+           "one record in flight and one after the swap. (b) the file reloader is not covered",
+    outside="the automatic file reloader (serde_yaml + threads), more than one swap, more than one logging thread",
+    assumptions=["E2: arc_swap::ArcSwap is replaced by a Mutex<Arc<T>> model (snapshot on load, replace on store) with yield calls "
+                 "before and after every load and store; arc-swap's own atomicity is trusted",
+                 "E1 containers; Backtrace::capture -> disabled; <anyhow::Error as Drop>::drop -> no-op"],
+    level_text="Bounded model checking through the public API: the deliveries of a record equal the routing under the old or under "
+               "the new configuration, never a mixture, for every position of the swap; a record logged after set_config returned uses "
+               "only the new configuration; log::max_level() follows the swap; enabled() agrees with delivery.",
+    level_note="Trusted: Kani/CBMC/CaDiCaL, E1, E2.",
+    design_ref="DESIGN.md section 5, C15",
+    harnesses=[
+        H("c15_swap::swap_under_a", instance="target under logger a; c0 additive, c1 not", symbolic="8 levels, failing appender, swap position 0..5, record levels", bound="unwind 6", unwindset=TREE_REC(1), timeout=1800, mem_gb=12),
+        H("c15_swap::swap_under_a_witness", kind="witness", unwindset=TREE_REC(1), timeout=1800, mem_gb=12),
+        H("c15_swap::swap_reentrant", instance="swap triggered from inside an appender of the old configuration", symbolic="levels, which appender triggers", bound="unwind 6", unwindset=TREE_REC(1), timeout=1800, mem_gb=12),
+        H("c15_swap::swap_root_target", tier="thorough", instance="target outside logger a; appenders declared in reverse order", symbolic="as above", bound="unwind 6", unwindset=TREE_REC(1), timeout=3600, mem_gb=14),
+    ],
+)
+
+_e = dict(timeout=1800, mem_gb=12)
+PROPS["C19"] = dict(
+    functions=["append::env_util::expand_env_vars", "is_env_var_start", "is_env_var_part"],
+    bounds="13 path texts (instances): simple, two references, repeated reference, dotted and non-ASCII names, unterminated, empty name, "
+           "illegal first / inner character, stray '$' '{' '}', nested look-alike, plain text, a value that mentions another reference; "
+           "which variables are set is the solver's choice; values are instance parameters",
+    outside="free path text, the call sites in the appenders (same function, reached through build in C04/C05/C07 instances with $ENV)",
+    assumptions=["E6: std::env::var answered from a table; hook verif_expand_env_vars forwards to the private function"],
+    level_text="Bounded model checking of the real expansion: for every subset of set variables the result equals the reference "
+               "scanner's (set references replaced by the value, everything else byte for byte unchanged).",
+    level_note="Trusted: Kani/CBMC/CaDiCaL. Texts are enumerated instances.",
+    design_ref="DESIGN.md section 5, C19",
+    harnesses=[
+        H("c19_env::env_simple", instance="/a/$ENV{A}/b", symbolic="A set or not", bound="unwind 20", **_e),
+        H("c19_env::env_simple_witness", kind="witness", **_e),
+        H("c19_env::env_unterminated", instance="/a/$ENV{A", symbolic="A set or not", bound="unwind 20", **_e),
+        H("c19_env::env_bad_inner", instance="$ENV{A-}$ENV{A}", symbolic="A set or not", bound="unwind 20", **_e),
+        H("c19_env::env_value_mentions_other", instance="$$ENV{A}$ENV{B}, A='ENV{B}', B='z' (class of the fixed finding)", symbolic="A, B set or not", bound="unwind 24", **_e),
+    ] + [H("c19_env::" + n, tier="thorough", instance=n, symbolic="which variables are set", bound="unwind 20", timeout=3600, mem_gb=14)
+         for n in ["env_two", "env_repeat", "env_dotted", "env_unicode_name", "env_empty_name", "env_bad_first", "env_stray", "env_nested", "env_none"]],
+)
+
+# C13: add the builder harnesses
+PROPS["C13"]["functions"] += ["ConfigBuilder::build_lossy", "ConfigBuilder::build"]
+PROPS["C13"]["bounds"] += "; builder: 2-3 appenders x 2-3 loggers with one reference each; per harness ONE item (an appender name, a logger name, a logger reference or the root reference) is the solver's choice from its pool (appender names {A,B}; logger names a, a::b, b, 'a:', ''; references {A,B,Z}), the others are fixed by the instance (all items symbolic at once ran out of memory at 12 GB)"
+PROPS["C13"]["outside"] = "more than 3 appenders / loggers, more than one reference per logger, names outside the pools; installing and logging through the returned configuration (covered for valid configurations by C15's harnesses)"
+PROPS["C13"]["assumptions"] += ["E1: the two HashSet<String> of build_lossy are replaced by a fixed-capacity list with bytewise comparison"]
+PROPS["C13"]["level_text"] += " Builder: for every choice of names from the pools the reported errors equal the reference list item by item (nothing missing, nothing innocent), strict build succeeds iff that list is empty, and the lossy result consists of exactly the valid items in order."
+PROPS["C13"]["level_note"] = "Trusted: Kani/CBMC/CaDiCaL, E1."
+PROPS["C13"]["harnesses"] += [
+    H("c13_builder::lossy_free_appender", timeout=1800, mem_gb=12, instance="lossy, appenders [A, ?], loggers a, a::b (valid)", symbolic="the second appender's name over {A,B}", bound="unwind 8"),
+    H("c13_builder::lossy_free_appender_witness", kind="witness", timeout=1800, mem_gb=12),
+    H("c13_builder::lossy_free_logger", timeout=1800, mem_gb=12, instance="lossy, loggers [a, ?]", symbolic="the second logger's name over {a, a::b, b, 'a:', ''}", bound="unwind 8"),
+    H("c13_builder::strict_free_logger", timeout=1800, mem_gb=12, instance="strict, loggers [a, ?]", symbolic="the second logger's name", bound="unwind 8"),
+    H("c13_builder::lossy_free_ref", tier="thorough", timeout=3600, mem_gb=14, instance="lossy, second logger's reference free", symbolic="reference over {A,B,Z}", bound="unwind 8"),
+    H("c13_builder::lossy_free_root", tier="thorough", timeout=3600, mem_gb=14, instance="lossy, root reference free", symbolic="reference over {A,B,Z}", bound="unwind 8"),
+    H("c13_builder::strict_free_appender", tier="thorough", timeout=3600, mem_gb=14, instance="strict, appenders [A, ?]", symbolic="the second appender's name", bound="unwind 8"),
+    H("c13_builder::lossy_dups_free_logger", tier="thorough", timeout=3600, mem_gb=14, instance="lossy, 3 appenders [A,A,?B], loggers [a, a, ?], dangling references", symbolic="the third logger's name", bound="unwind 8"),
+    H("c13_builder::lossy_dups_free_appender", tier="thorough", timeout=3600, mem_gb=14, instance="lossy, 3 appenders [A,A,?], duplicates and dangling references", symbolic="the third appender's name", bound="unwind 8"),
+]
+
+# C18: add the console policy harnesses
+PROPS["C18"]["functions"] += ["COLOR_MODE initialiser", "console::imp::Writer::{stdout,stderr}", "ConsoleAppenderBuilder::build"]
+PROPS["C18"]["bounds"] += "; (a) NO_COLOR / CLICOLOR / CLICOLOR_FORCE each unset, '0' or '1', isatty per descriptor, target, tty_only: all combinations as solver variables"
+PROPS["C18"]["outside"] = "bytes arriving on a real terminal; (c) highlight pairing is checked with C09's pat_highlight"
+PROPS["C18"]["assumptions"] += ["E6 environment table; E8: libc::isatty / STD*_FILENO are shadowed by a stand-in answered by the harness (foreign functions cannot be stubbed)",
+                                "NO_COLOR=0 and CLICOLOR_FORCE=0 are outside the statement: the colour assertion is skipped for them"]
+PROPS["C18"]["harnesses"] += [
+    H("c18_console::console_policy", timeout=1800, mem_gb=12, instance="every input outside the recorded finding's class", symbolic="3 variables x {unset,0,1}, 2 isatty answers, target, tty_only", bound="unwind 16"),
+    H("c18_console::console_policy_witness", kind="witness", timeout=1800, mem_gb=12),
+    H("c18_console::console_policy_known", kind="finding", timeout=1800, mem_gb=12, instance="the recorded finding's class: tty_only with a colour decision that differs from terminal detection", symbolic="as above", bound="unwind 16"),
+]
